@@ -63,6 +63,60 @@ def case_planestrain(fam2, geometry, rep):
     return fn
 
 
+def case_planestrain_mixed(rep):
+    """The same reduction for mixed (u, p, J) formulations: FieldsMixed(planestrain=True) on quads vs the one-layer hexahedron slab
+    with w = 0; the cell-wise constant dual fields map one to one (cells keep their order under expand)."""
+    def fn(run):
+        import felupe as fem
+        rng = rng_for(run.seed, "C10", "planestrain-mixed", rep)
+        base, _ = gen.build_mesh("quad", ["distorted", "affine"][rep % 2], rng)
+        mesh3 = base.expand(n=2, z=1.0)
+        reg2, reg3 = fem.RegionQuad(base), fem.RegionHexahedron(mesh3)
+        nf = [3, 2][(rep // 2) % 2]
+        f2 = fem.FieldsMixed(reg2, n=nf, planestrain=True)
+        f3 = fem.FieldsMixed(reg3, n=nf)
+        u2 = gen.random_displacement(rng, base, grad=0.25)
+        f2[0].values[:] = u2
+        key = lambda P: [tuple(np.round(p[:2], 9)) for p in P]
+        idx2 = {k: i for i, k in enumerate(key(base.points))}
+        owner = np.array([idx2[k] for k in key(mesh3.points)])
+        f3[0].values[:, :2] = u2[owner]
+        f3[0].values[:, 2] = 0.0
+        # cells of the slab in the order of the quads (matched by their in-plane centroids)
+        c2 = {tuple(np.round(base.points[c].mean(0), 9)): k for k, c in enumerate(base.cells)}
+        cown = np.array([c2[tuple(np.round(mesh3.points[c].mean(0)[:2], 9))] for c in mesh3.cells])
+        for k in range(1, nf):
+            vals = (0.3 * rng.standard_normal(base.ncells) if k == 1 else 1 + 0.1 * rng.standard_normal(base.ncells))
+            f2[k].values[:] = vals.reshape(f2[k].values.shape)
+            f3[k].values[:] = vals[cown].reshape(f3[k].values.shape)
+        if nf == 3:
+            mk = lambda: fem.ThreeFieldVariation(fem.NeoHooke(mu=1.0, bulk=5.0)) if rep % 3 else fem.NearlyIncompressible(fem.NeoHooke(mu=1.0), bulk=5.0)
+        else:
+            mk = lambda: fem.NearlyIncompressible(fem.NeoHooke(mu=1.0), bulk=5.0)
+        if nf == 2:
+            run.skip("reduced.planestrain", "two-field containers: no mixed law of the library takes (F, p) only")
+            return
+        s2, s3 = fem.SolidBody(mk(), f2), fem.SolidBody(mk(), f3)
+        par = bool(rep % 2)
+        r2 = s2.assemble.vector(f2, parallel=par).toarray().ravel()
+        r3 = s3.assemble.vector(f3, parallel=par).toarray().ravel()
+        K2 = s2.assemble.matrix(f2, parallel=par).toarray()
+        K3 = s3.assemble.matrix(f3, parallel=par).toarray()
+        n2, n3, nc = base.npoints, mesh3.npoints, base.ncells
+        T = np.zeros((3 * n3 + (nf - 1) * nc, 2 * n2 + (nf - 1) * nc))
+        for p_ in range(n3):
+            for i in range(2):
+                T[3 * p_ + i, 2 * owner[p_] + i] = 1.0
+        for k in range(nf - 1):
+            for c in range(nc):
+                T[3 * n3 + k * nc + c, 2 * n2 + k * nc + cown[c]] = 1.0
+        run.compare("reduced.planestrain", "pair=mixed-quad~mixed-hexahedron clause=force", maxabs(r2 - T.T @ r3) / max(maxabs(r2), 1e-300), 1e-11,
+                    "mixed plane strain: residual differs from the one of the unit-thickness slab with w = 0", unit="planestrain:mixed:force", config=("ps-mixed", rep % 3, par))
+        run.compare("reduced.planestrain", "pair=mixed-quad~mixed-hexahedron clause=stiffness", maxabs(K2 - T.T @ K3 @ T) / max(maxabs(K2), 1e-300), 1e-11,
+                    "mixed plane strain: stiffness (incl. the u-p / u-J coupling blocks) differs from the condensed slab stiffness", unit="planestrain:mixed:stiffness")
+    return fn
+
+
 def axi_energy(field, um, vals, ngeo=None):
     """Oracle-side strain energy of the revolved body: sum_q W(F_q) 2 pi R_q dV_q. The deformation gradient is built here
     (in-plane part from the region's shape-function gradients, hoop stretch 1 + u_r / R) and the radius is interpolated with
@@ -344,6 +398,8 @@ def cases(tier, seed):
         for geo in ("undistorted", "distorted", "affine"):
             for rep in range(reps):
                 out.append(("planestrain:%s:%s:%d" % (fam2, geo, rep), case_planestrain(fam2, geo, rep)))
+    for rep in [0, 1, 3, 5] if tier == "quick" else [r for r in range(16) if (r // 2) % 2 == 0]:
+        out.append(("planestrain-mixed:%d" % rep, case_planestrain_mixed(rep)))
     for fam in ("quad", "quad8", "quad9", "triangle", "triangle6", "triangleMINI"):
         for rep in range(reps):
             out.append(("axi-energy:%s:%d" % (fam, rep), case_axisymmetric_energy(fam, rep)))
@@ -364,7 +420,7 @@ def cases(tier, seed):
 SPEC = {
     "required_units": ["planestrain:force:quad", "planestrain:force:quad8", "planestrain:force:quad9", "planestrain:stiffness:quad",
                        "planestrain:stiffness:quad8", "planestrain:stiffness:quad9", "axisymmetric:energy:quad", "axisymmetric:energy:quad8",
-                       "axisymmetric:energy:triangle", "axisymmetric:energy:triangleMINI", "axisymmetric:revolve-convergence", "axisymmetric:revolve-extrapolated", "condensed:state-force:3d", "condensed:state-force:planestrain", "condensed:state-force:axisymmetric", "condensed:u:3d", "condensed:u:planestrain",
+                       "axisymmetric:energy:triangle", "axisymmetric:energy:triangleMINI", "axisymmetric:revolve-convergence", "axisymmetric:revolve-extrapolated", "planestrain:mixed:force", "planestrain:mixed:stiffness", "condensed:state-force:3d", "condensed:state-force:planestrain", "condensed:state-force:axisymmetric", "condensed:u:3d", "condensed:u:planestrain",
                        "condensed:u:axisymmetric", "condensed:p:3d", "condensed:J:3d", "condensed:bulk:1", "condensed:bulk:2", "condensed:bulk:3", "condensed:state:3d", "condensed:restart:3d", "condensed:restart:axisymmetric",
                        "planestrain:parallel", "condensed:variant:NeoHooke|ThreeFieldVariation", "condensed:variant:tt.yeoh|NearlyIncompressible",
                        "uniform:vector", "uniform:matrix", "uniform:vector:axisymmetric", "uniform:matrix:axisymmetric", "uniform:constant:linear-elastic-matrix", "uniform:constant:mass", "uniform:constant:body-force"],
